@@ -533,6 +533,34 @@ class RoundGen:
                 self.emit({"k": "condition", "indent": indent, "expr": expr})
         if self.stopped:
             return
+        if typ in ("int", "float") and v is not None and not isinstance(v, list) \
+                and rng.random() < cfg["p_options"] * 0.3:
+            # options taken from other nodes: '= {?limit}' per line, '!options {?sizes}' as list
+            others = [(p, n) for p, n in self.g.nodes.items()
+                      if p != path and n["type"] == typ and n["value"] is not None
+                      and (n["unit"] is None) == (node["unit"] is None)
+                      and (n["unit"] is None or self.g.units.dims(n["unit"]) ==
+                           self.g.units.dims(node["unit"]))]
+            scal = [(p, n) for p, n in others if not isinstance(n["value"], list)]
+            arrs = [(p, n) for p, n in others if isinstance(n["value"], list)
+                    and n["value"] and not isinstance(n["value"][0], list)]
+            done = False
+            if arrs and rng.random() < 0.4:
+                p2, n2 = rng.choice(arrs)
+                self.emit({"k": "options", "indent": indent, "ref": {"src": None, "query": p2},
+                           "unit": None})
+                done = True
+            elif scal:
+                for p2, n2 in rng.sample(scal, min(len(scal), rng.randint(1, 2))):
+                    self.emit({"k": "option", "indent": indent,
+                               "ref": {"src": None, "query": p2}, "unit": None})
+                    if self.stopped:
+                        return
+                done = True
+            if done and not self.stopped:
+                # the node's own value as a literal option, so that the definition stands
+                self.emit({"k": "option", "indent": indent, "value": v, "unit": node["unit"]})
+                return
         if typ in ("int", "float", "str") and rng.random() < cfg["p_options"]:
             n = rng.randint(1, 4)
             opts = []
